@@ -230,6 +230,23 @@ impl World {
         self.configs.len() - 1
     }
 
+    /// Attempt to create a config with a (possibly out-of-bounds) default protocol fee rate; None when the program refuses.
+    pub fn try_add_config(&mut self, default_protocol_fee_rate: u16) -> Option<usize> {
+        let key = self.new_key();
+        let fee_authority = self.new_key();
+        let cpfa = self.new_key();
+        let resa = self.new_key();
+        let ix = b::InitializeConfig { config: key, funder: ADMIN, system_program: system_program::ID }.ix(fee_authority, cpfa, resa, default_protocol_fee_rate);
+        if !self.exec(ix).ok() {
+            return None;
+        }
+        for k in [fee_authority, cpfa, resa] {
+            self.bank.airdrop(k, 1_000_000_000_000);
+        }
+        self.configs.push(ConfigInfo { key, fee_authority, collect_protocol_fees_authority: cpfa, reward_emissions_super_authority: resa, extension: None, config_extension_authority: fee_authority, token_badge_authority: fee_authority });
+        Some(self.configs.len() - 1)
+    }
+
     pub fn add_config_extension(&mut self, c: usize) -> Pubkey {
         if let Some(e) = self.configs[c].extension {
             return e;
